@@ -43,8 +43,19 @@ pub fn eval_map(ctx: &mut Ctx, r: &Row) {
     if width != r.cols || bits.len() != r.rows * r.cols {
         return ctx.violation("dims", &case, format!("bitmap {}x{}", width, bits.len() / width.max(1)));
     }
-    if order != (0..r.total()).collect::<Vec<_>>() {
-        return ctx.violation("codeword_order", &case, format!("traverse_mut visited {} codewords, not 0..{} in order", order.len(), r.total()));
+    // every codeword exactly once; the order of the callbacks is not part of the statement (recorded only)
+    let mut sorted = order.clone();
+    sorted.sort();
+    if sorted != (0..r.total()).collect::<Vec<_>>() {
+        return ctx.violation("codeword_order", &case, format!("traverse_mut visited {} codewords, not each of 0..{} exactly once", order.len(), r.total()));
+    }
+    if sorted != order {
+        ctx.count("callbacks_not_in_index_order(not judged)");
+    }
+    let mut ridx: Vec<usize> = read.iter().map(|x| x.0).collect();
+    ridx.sort();
+    if ridx != sorted {
+        return ctx.violation("codeword_order", &case, format!("traverse visited {} codewords, not each of 0..{} exactly once", ridx.len(), r.total()));
     }
     for (idx, tags) in &read {
         for j in 0..8 {
